@@ -66,6 +66,10 @@ def run_scenario(ctx, exe, sc, label, stats, model=True, nrandom=0):
         res = run_jobs(ctx, exe, harness_scen(sc), random_jobs("reg" + label, nrandom, ctx.seed * 31 + len(label)), "rreg" + label)
         results += res
         stats["random"] += len(res)
+    # preemption-bounded systematic search on the real code (independent of the step-level model)
+    res, info = pb_explore(ctx, exe, harness_scen(sc), "reg" + label, 2 if ctx.quick else 3, 200 if ctx.quick else 6000)
+    results += res
+    stats["pb_executions"] = stats.get("pb_executions", 0) + info["executions"]
     seen = {}
     for x in results:
         rp = {"kind": "concurrent", "scenario": harness_scen(sc), "job": {"id": x["id"], "mode": "choices", "choices": x["choices"]}}
